@@ -9,6 +9,7 @@ import (
 	"path/filepath"
 	"regexp"
 	"sort"
+	"strconv"
 	"strings"
 	"sync"
 
@@ -296,6 +297,8 @@ func anyBody(t *rapid.T) ([]byte, string) {
 		return Deep(t), "deep-nesting"
 	case 1:
 		return LongLexemes(t), "long-lexemes"
+	case 2:
+		return ManyStatements(t), "many-statements"
 	}
 	switch rapid.IntRange(0, 6).Draw(t, "source") {
 	case 6:
@@ -398,3 +401,38 @@ func LongLexemes(t *rapid.T) []byte {
 	}
 	return b
 }
+
+// manyUnits are small valid statements; each stresses one or two node kinds (names and name parts,
+// variables, arguments, array items, strings with parts, members, parameters).
+var manyUnits = []string{
+	"A\\B\\C::d($e, 1);\n", "new \\Foo\\Bar(namespace\\baz());\n", "$a = [1, 'k' => $b, &$c];\n", "echo \"x $a[0] {$b->c} ${d}\";\n", "$o->p->q[1]->r();\n",
+	"function f%d(A\\B $x, ?C ...$y): D { return $x; }\n", "use P\\Q\\{R, function s, const T};\n", "if ($a) { $b; } elseif ($c) { $d; } else { $e; }\n", "list($a, , list($b)) = $c;\n",
+	"class K%d extends L implements M, N { const O = 1; public $p = 2; function q() {} use R, S { R::t insteadof S; u as protected v; } }\n",
+	"try { a(); } catch (E | F $g) { } finally { }\n", "$x = $y ?? $z ?: fn($w) => $w <=> 1;\n", "switch ($a) { case 1: break; default: continue 2; }\n", "/* c */ $i++; // d\n# e\n",
+	"?><b><?= $h ?></b>\n<?php ", "echo <<<EOT\n a $b\nEOT;\n", "global $g1, $$g2; static $s = 1, $t;\n", "foreach ($a as $k => &$v): endforeach;\n",
+}
+
+// ManyStatements draws a valid program in which one to three kinds of statement are repeated a few
+// hundred to a few thousand times (around 256, 1024 and 4096 repetitions): allocation in blocks —
+// of tokens, positions or any node kind — changes behaviour at such counts, and no small program
+// reaches them.
+func ManyStatements(t *rapid.T) []byte {
+	n := rapid.SampledFrom([]int{130, 257, 300, 520, 1030, 1100, 2100, 4200}).Draw(t, "repetitions")
+	k := rapid.IntRange(1, 3).Draw(t, "kinds")
+	var units []string
+	for i := 0; i < k; i++ {
+		units = append(units, rapid.SampledFrom(manyUnits).Draw(t, "unit"))
+	}
+	b := []byte("<?php\n")
+	for i := 0; i < n; i++ {
+		u := units[i%len(units)]
+		if strings.Contains(u, "%d") {
+			u = strings.Replace(u, "%d", strconv.Itoa(i), 1)
+		}
+		b = append(b, u...)
+	}
+	return b
+}
+
+// ManyUnitsForTest exposes the statement table to the package's self-test.
+func ManyUnitsForTest() []string { return manyUnits }
